@@ -129,6 +129,26 @@ pub struct Ctx {
     since_flush: std::cell::Cell<u64>,
 }
 
+/// measured: wall seconds of the unboosted quick tier on 16 idle cores -> multiplier
+fn quick_boost(prop: &str) -> f64 {
+    match prop {
+        "C02" => 4.0,
+        "C05" => 5.0,
+        "C08" => 12.0,
+        "C09" => 5.0,
+        "C10" => 3.0,
+        "C11" => 6.0,
+        "C12" => 4.0,
+        "C13" => 10.0,
+        "C15" => 6.0,
+        "C16" => 4.0,
+        "C17" => 8.0,
+        "C18" => 8.0,
+        "C04" => 2.0,
+        _ => 1.0,
+    }
+}
+
 impl Ctx {
     pub fn new(prop: &str, tier: Tier, seed: u64, mode: Mode, strict: bool) -> Ctx {
         let known = if strict {
@@ -174,7 +194,10 @@ impl Ctx {
 
     /// pick the case count for the current tier
     pub fn cases(&self, quick: u64, thorough: u64) -> u64 {
-        let n = if self.thorough() { thorough } else { quick };
+        // The quick counts written in the property modules were sized on a machine shared with a
+        // dozen other jobs. `quick_boost` scales them so that a quick run is roughly 30-60 s of
+        // fixed work on 16 idle cores (never beyond the thorough count).
+        let n = if self.thorough() { thorough } else { ((quick as f64) * quick_boost(&self.prop)).ceil().min(thorough.max(quick) as f64) as u64 };
         ((n as f64) * self.scale).ceil() as u64
     }
 
